@@ -1214,7 +1214,7 @@ fn gen_string(r: &mut Rng, max: usize) -> String {
     s
 }
 
-/// outside every known-finding class: no NUL followed by 0–7, and (if asked) no `<`
+/// avoids the inputs of the repaired defects: no NUL followed by 0–7, and (if asked) no `<`
 fn sanitize(s: &str, drop_lt: bool) -> String {
     let mut out = String::new();
     let mut prev_nul = false;
@@ -1365,7 +1365,7 @@ fn gen(seed: u64, n: usize, path: &str) -> std::io::Result<()> {
         produced += 1;
     }
     while produced < n {
-        let safe = r.chance(11, 20);
+        let safe = r.chance(1, 5); // avoid '<' and NUL+octal (the inputs of the repaired F-C12-1/2/3) in 1 case of 5
         match r.below(10) {
             0 if r.chance(1, 2) => {
                 // browser twins only: random literal sources / script texts
@@ -1403,7 +1403,6 @@ fn gen(seed: u64, n: usize, path: &str) -> std::io::Result<()> {
                 for _ in 0..k {
                     let s = gen_string(&mut r, 8);
                     if r.chance(1, 5) {
-                        // never in a known-finding class: the JSON codec is proved correct in full
                         l.push(format!("jsonenc {}", hex(s.as_bytes())));
                     } else if r.chance(3, 5) {
                         let s = if safe { sanitize(&s, true) } else { s };
